@@ -4,7 +4,7 @@ import ast
 
 from ..model import AnalysisError, src
 from ..absint import (Interp, Const, Sym, Err, Atom, Top, Func, ListV, Obj, Aff, AffCmp, Raised, Unmodelled, Exc, k)
-from .. import abshelp as H, ctx as ctxmod, purity
+from .. import abshelp as H, ctx as ctxmod, purity, sa
 from .c01 import error_singletons
 
 
@@ -37,6 +37,7 @@ def run(model, res, tier):
     _joins(model, res, E)
     _delegation(model, res)
     _text_of_number(model, res)
+    _clean_filter(model, res)
     keys = []
     for n in ('LEFT', 'RIGHT', 'MID', 'SUBSTITUTE', 'CONCATENATE', 'TEXTJOIN', 'UPPER', 'LOWER', 'PROPER', 'TRIM', 'CLEAN', 'LEN', 'CHAR', 'CODE'):
         m, f = model.registered(n)
@@ -354,6 +355,40 @@ def _delegation(model, res):
     res.ob('R6', 'CODE', 'ord(c)', ok, H.describe(outs))
     if not ok:
         res.violation('R6', 'function:CODE:delegation', m.where(f), 'CODE(c) must be ord(c); got %s' % '; '.join(H.describe(outs)), func=f.name)
+
+
+def _clean_filter(model, res):
+    """CLEAN keeps a character exactly when it is not a control character (code > 31): the filter is read off the source."""
+    m, f = model.registered('CLEAN')
+    tests = []
+    for n in ast.walk(f):
+        if isinstance(n, ast.comprehension) and n.ifs and isinstance(n.target, ast.Name):
+            tests.append((n.target.id, n.ifs))
+    if not tests:
+        res.ob('R6', 'CLEAN', 'character filter', True, 'undecided: no character filter recognised')
+        return
+    for var, ifs in tests:
+        for t in ifs:
+            verdict = None
+            if isinstance(t, ast.Compare) and len(t.ops) == 1:
+                l, r, op = t.left, t.comparators[0], t.ops[0]
+                is_ord = isinstance(l, ast.Call) and sa.call_name(l) == 'ord' and len(l.args) == 1 and isinstance(l.args[0], ast.Name) and l.args[0].id == var
+                if is_ord and isinstance(r, ast.Constant) and isinstance(r.value, int):
+                    verdict = (isinstance(op, ast.Gt) and r.value == 31) or (isinstance(op, ast.GtE) and r.value == 32)
+                elif isinstance(l, ast.Name) and l.id == var and isinstance(r, ast.Constant) and isinstance(r.value, str) and len(r.value) == 1:
+                    verdict = (isinstance(op, ast.Gt) and ord(r.value) == 31) or (isinstance(op, ast.GtE) and ord(r.value) == 32)
+            elif isinstance(t, ast.Call) and isinstance(t.func, ast.Attribute) and isinstance(t.func.value, ast.Name) and t.func.value.id == var \
+                    and t.func.attr.startswith('is'):
+                verdict = False         # a unicode character-class predicate is not "code > 31"
+            elif isinstance(t, ast.UnaryOp) and isinstance(t.op, ast.Not) and isinstance(t.operand, ast.Call) and \
+                    isinstance(t.operand.func, ast.Attribute) and t.operand.func.attr.startswith('is'):
+                verdict = False
+            res.ob('R6', 'CLEAN', 'keeps exactly the characters with code > 31: %s' % src(t), verdict is not False,
+                   'undecided' if verdict is None else '')
+            if verdict is False:
+                res.violation('R6', 'function:CLEAN:filter', m.where(t),
+                              'CLEAN keeps a character when %s: CLEAN removes the control characters (codes 0-31) and nothing else - this test '
+                              'also drops or keeps other characters (e.g. no-break spaces, format characters)' % src(t), func=f.name)
 
 
 def _text_of_number(model, res):
